@@ -113,7 +113,7 @@ def parse_drv(txt):
             continue
         if t[0] == 'I':
             cur = int(t[1])
-            res[cur] = {'m': {}, 's': {}, 'd': {}, 'k': {}, 'g': {}}
+            res[cur] = {'m': {}, 's': {}, 'd': {}, 'k': {}, 'g': {}, 'i': {}}
         elif cur is None:
             continue
         elif t[0] == 'm':
@@ -124,6 +124,12 @@ def parse_drv(txt):
                 ip, ib, ia, iu = t.index('P'), t.index('B'), t.index('A'), t.index('U')
                 res[cur]['m'][k] = {'status': 'ok', 'tie': t[3] == 'T1', 'wf': t[4] != 'W0', 'x': [parse_hexq(x) for x in t[ip + 1:ib]],
                                     'B': [int(b) for b in t[ib + 1:ia]], 'A': t[ia + 1], 'U': t[iu + 1]}
+        elif t[0] == 'i':
+            # invariants (VpscInvB.all_invb) on every state the model visited while executing op k: ok, #states, mask
+            k = int(t[1])
+            prev = res[cur]['i'].get(k)
+            res[cur]['i'][k] = {'ok': t[2] == '1' and (prev is None or prev['ok']), 'states': int(t[3]) if prev is None else prev['states'],
+                                'mask': int(t[4]) | (prev['mask'] if prev else 0)}
         elif t[0] == 's':
             res[cur]['s'][int(t[1])] = t[2] == '1'
         elif t[0] == 'd':
@@ -328,6 +334,11 @@ def eval_corr(ins, reals, drv, impl, postol=Fr(1, 10 ** 9)):
     """model vs implementation.  returns (status, detail): status in ok | tie | diff"""
     d = drv or {'m': {}}
     tie_seen = False
+    for k, iv in sorted((d.get('i') or {}).items()):
+        if not iv['ok']:
+            return 'diff', {'op_index': k, 'what': 'a state the MODEL visits while executing this op violates a proved invariant '
+                            '(mask: 1 book, 2 act_inv, 4 forest, 8 trichotomy, 16 block statistics, 32 AB sums, 64 step_chk<>step)',
+                            'mask': iv['mask'], 'states_checked': iv['states']}
     for r in reals:
         k = r['op']
         m = d['m'].get(k)
